@@ -800,6 +800,244 @@ Proof.
   cbn. rewrite IH. reflexivity.
 Qed.
 
+(* ---------- nesting: iterators inside the templates of iterators, at any depth ---------- *)
+Lemma all_ok_map_ok {A} (g : A -> res) l ns x :
+  all_ok (map g l) = Some ns -> In x l -> exists n, In n ns /\ g x = Ok n.
+Proof.
+  intros E Hin. apply all_ok_map_F2 in E.
+  induction E as [|y m l ns Hy E IH]; [destruct Hin|].
+  destruct Hin as [->|Hin].
+  - exists m. split; [left; reflexivity|exact Hy].
+  - destruct (IH Hin) as [n [Hn1 Hn2]]. exists n. split; [right; exact Hn1|exact Hn2].
+Qed.
+
+(* a load that succeeds has processed every occurrence successfully *)
+Lemma occ_proc_ok f c loc r c' loc' r' :
+  occ c loc r c' loc' r' -> forall t, proc f r c loc = Ok t -> exists n', proc f r' c' loc' = Ok n'.
+Proof.
+  intros O. induction O as
+      [c loc r
+      |c loc fs k b kids vals v c' loc' r' Hr Hv O IH
+      |c loc b kids s i kid c' loc' r' He Ht Hs Hkid O IH]; intros t E.
+  - exists t. exact E.
+  - rewrite proc_for, Hr in E. unfold join_iter in E.
+    destruct (all_ok (map (fun v => proc f (Role None k b kids) c [(f_var fs, v)]) vals)) as [ns|] eqn:Ea;
+      [|discriminate].
+    destruct (all_ok_map_ok _ _ _ _ Ea Hv) as [m [_ Hm]]. exact (IH m Hm).
+  - rewrite proc_none in E. unfold own in E. rewrite He, Ht, Hs in E. unfold join_agg in E.
+    destruct (all_ok (map (fun kid => proc f kid (child_ctx c i) []) kids)) as [ns|] eqn:Ea;
+      [|discriminate].
+    destruct (all_ok_map_ok _ _ _ _ Ea Hkid) as [m [_ Hm]]. exact (IH m Hm).
+Qed.
+
+(* every iterator occurrence of a successful load — whatever the depth, whatever encloses it —
+   expands to exactly one copy per element of its range as evaluated in the scope of that
+   occurrence, in order, the disabled copies filtered *)
+Lemma nested_iterator_exact f c loc r t c' loc' fs k b kids :
+  proc f r c loc = Ok t -> occ c loc r c' loc' (Role (Some fs) k b kids) ->
+  exists vals ns,
+    range_vals (stack [] c') fs = Some vals /\
+    Forall2 (fun v m => proc f (Role None k b kids) c' [(f_var fs, v)] = Ok m) vals ns /\
+    proc f (Role (Some fs) k b kids) c' loc' =
+    Ok (OIter (show (r_name b)) (show (r_enabled b)) (filter (node_enabled f) ns)).
+Proof.
+  intros E O. destruct (occ_proc_ok f _ _ _ _ _ _ O t E) as [n' En].
+  destruct (iterator_exact _ _ _ _ _ _ _ _ En) as [vals [ns [Hr [HF ->]]]].
+  exists vals, ns. split; [exact Hr|]. split; [exact HF|exact En].
+Qed.
+
+Lemma nested_iterator_count f c loc r t c' loc' fs k b kids :
+  proc f r c loc = Ok t -> occ c loc r c' loc' (Role (Some fs) k b kids) ->
+  exists vals ns n,
+    range_vals (stack [] c') fs = Some vals /\
+    Forall2 (fun v m => proc f (Role None k b kids) c' [(f_var fs, v)] = Ok m) vals ns /\
+    proc f (Role (Some fs) k b kids) c' loc' = Ok n /\
+    ((forall m, In m ns -> node_enabled f m = true) ->
+     onode_kids n = ns /\ length (onode_kids n) = length vals).
+Proof.
+  intros E O. destruct (occ_proc_ok f _ _ _ _ _ _ O t E) as [n' En].
+  destruct (iterator_count _ _ _ _ _ _ _ _ En) as [vals [ns [Hr [HF Hc]]]].
+  exists vals, ns, n'. split; [exact Hr|]. split; [exact HF|]. split; [exact En|exact Hc].
+Qed.
+
+Lemma occ_trans c1 l1 r1 c2 l2 r2 c3 l3 r3 :
+  occ c1 l1 r1 c2 l2 r2 -> occ c2 l2 r2 c3 l3 r3 -> occ c1 l1 r1 c3 l3 r3.
+Proof.
+  intros O1 O2. induction O1 as
+      [c loc r
+      |c loc fs k b kids vals v c' loc' r' Hr Hv O IH
+      |c loc b kids s i kid c' loc' r' He Ht Hs Hkid O IH].
+  - exact O2.
+  - eapply Occ_elem; try eassumption. apply IH. exact O2.
+  - eapply Occ_kid; try eassumption. apply IH. exact O2.
+Qed.
+
+Lemma in_nodes_kids n ks m k i crit :
+  n = ONode k i crit ks \/ (exists nm en, n = OIter nm en ks) ->
+  In m (desc n) <-> exists x, In x ks /\ In m (nodes x).
+Proof.
+  intros Hn. rewrite (desc_cons_in n ks m k i crit Hn). unfold nodes. split.
+  - intros [x [Hx [->|Hm]]]; exists x; (split; [exact Hx|]); [left; reflexivity|right; exact Hm].
+  - intros [x [Hx [<-|Hm]]]; exists x; (split; [exact Hx|]); [left; reflexivity|right; exact Hm].
+Qed.
+
+Lemma own_ok_inv f c loc b i :
+  own f c loc b = OwnOk i ->
+  exists s, eval (stack loc c) (r_enabled b) = Some s /\ is_true s = true /\ stages c loc b s = Some i.
+Proof.
+  unfold own. destruct (eval (stack loc c) (r_enabled b)) as [s|].
+  - destruct (is_true s) eqn:Ht; [|discriminate].
+    destruct (stages c loc b s) as [i'|] eqn:Hs; [|discriminate].
+    intros E. inversion E; subst. exists s. repeat split; assumption.
+  - destruct (fl_mask f); discriminate.
+Qed.
+
+(* the other direction, anchored in the loaded tree: every iterator container anywhere in the
+   tree is the expansion of a live iterator occurrence; it holds exactly the enabled copies, one
+   per element of the range evaluated under the maps of that occurrence *)
+Definition container_spec (f : flags) (c : ctx) (loc : env) (r : role) (nm en : str) (ks : list onode) : Prop :=
+  exists c' loc' fs k b kids vals ns,
+    occ c loc r c' loc' (Role (Some fs) k b kids) /\
+    range_vals (stack [] c') fs = Some vals /\
+    Forall2 (fun v m => proc f (Role None k b kids) c' [(f_var fs, v)] = Ok m) vals ns /\
+    nm = show (r_name b) /\ en = show (r_enabled b) /\ ks = filter (node_enabled f) ns.
+
+Lemma container_spec_under f c loc r c1 l1 r1 nm en ks :
+  occ c loc r c1 l1 r1 -> container_spec f c1 l1 r1 nm en ks -> container_spec f c loc r nm en ks.
+Proof.
+  intros O [c' [loc' [fs [k [b [kids [vals [ns [O2 H]]]]]]]]].
+  exists c', loc', fs, k, b, kids, vals, ns. split; [|exact H].
+  eapply occ_trans; eassumption.
+Qed.
+
+Lemma containers_sound f r : forall c loc t nm en ks,
+  proc f r c loc = Ok t -> In (OIter nm en ks) (nodes t) -> container_spec f c loc r nm en ks.
+Proof.
+  induction r as [fo k b kids IH] using role_ind'.
+  assert (Hbody : forall c loc t nm en ks,
+             proc f (Role None k b kids) c loc = Ok t -> In (OIter nm en ks) (nodes t) ->
+             container_spec f c loc (Role None k b kids) nm en ks).
+  { intros c loc t nm en ks. rewrite proc_none.
+    destruct (own f c loc b) as [|i|i] eqn:Eo; [discriminate| |].
+    - intros E Hin. inversion E; subst. destruct Hin as [C|[]]. discriminate.
+    - destruct k.
+      + intros E Hin. inversion E; subst. destruct Hin as [C|[]]. discriminate.
+      + intros E Hin. inversion E; subst. destruct Hin as [C|[]]. discriminate.
+      + unfold join_agg.
+        destruct (all_ok (map (fun kid => proc f kid (child_ctx c i) []) kids)) as [ns|] eqn:Ea;
+          [|discriminate].
+        destruct (own_ok_inv _ _ _ _ _ Eo) as [s [He [Ht Hs]]].
+        destruct (agg_empty f (filter (node_enabled f) ns)) eqn:Ee; intros E Hin; inversion E; subst.
+        * destruct Hin as [C|[]]. discriminate.
+        * destruct Hin as [C|Hin]; [discriminate|].
+          apply (in_nodes_kids _ (filter (node_enabled f) ns) _ KAgg i (r_crit b)) in Hin;
+            [|left; reflexivity].
+          destruct Hin as [x [Hx Hm]]. apply filter_In in Hx. destruct Hx as [Hx _].
+          destruct (all_ok_map_in _ _ _ _ Ea Hx) as [kid [Hkid Hp]].
+          rewrite Forall_forall in IH.
+          eapply container_spec_under; [|eapply IH; eassumption].
+          eapply Occ_kid; try eassumption. apply Occ_here. }
+  intros c loc t nm en ks. destruct fo as [fs|]; [|apply Hbody].
+  intros E Hin. destruct (iterator_exact _ _ _ _ _ _ _ _ E) as [vals [ns [Hr [HF ->]]]].
+  destruct Hin as [C|Hin].
+  - inversion C; subst. exists c, loc, fs, k, b, kids, vals, ns.
+    split; [apply Occ_here|]. repeat split; assumption.
+  - apply (in_nodes_kids _ (filter (node_enabled f) ns) _ KAgg (mkInfo [] [] [] [] [] []) false) in Hin;
+      [|right; eexists; eexists; reflexivity].
+    destruct Hin as [x [Hx Hm]]. apply filter_In in Hx. destruct Hx as [Hx _].
+    assert (Hv : exists v, In v vals /\ proc f (Role None k b kids) c [(f_var fs, v)] = Ok x).
+    { clear -HF Hx. induction HF as [|v m' vals ns Hv HF IH]; [destruct Hx|].
+      destruct Hx as [->|Hx].
+      - exists v. split; [left; reflexivity|exact Hv].
+      - destruct (IH Hx) as [w [Hw1 Hw2]]. exists w. split; [right; exact Hw1|exact Hw2]. }
+    destruct Hv as [v [Hv Hp]].
+    eapply container_spec_under; [|eapply Hbody; eassumption].
+    eapply Occ_elem; try eassumption. apply Occ_here.
+Qed.
+
+(* the scope in which the ranges (and all fields) of the roles inside a copy are evaluated binds
+   the iteration variable of the copy to its element *)
+Lemma assoc_app {V} k (a b : list (str * V)) :
+  assoc k (a ++ b) = match assoc k a with Some v => Some v | None => assoc k b end.
+Proof.
+  induction a as [|[k' v'] a IH]; [reflexivity|]. cbn. destruct (str_eqb k k'); [reflexivity|exact IH].
+Qed.
+
+Lemma stages_vars_eq c loc b en i :
+  stages c loc b en = Some i ->
+  exists D1 V1, evalmap (loc ++ cU c ++ cV c ++ (D1 ++ cD c)) (r_vars b) = Some V1 /\
+                i_vars i = loc ++ V1.
+Proof.
+  unfold stages. destruct (evalmap (stack loc c) (r_defaults b)) as [D1|]; [|discriminate].
+  destruct (evalmap _ (r_vars b)) as [V1|] eqn:EV; [|discriminate].
+  destruct (eval _ (r_name b)); [|discriminate].
+  destruct (evalmap _ (r_s4 b)); [|discriminate].
+  destruct (evalmap _ (r_s5 b)); [|discriminate].
+  intros E. inversion E; subst. exists D1, V1. split; [exact EV|reflexivity].
+Qed.
+
+Lemma evalmap_assoc_none e m m' x :
+  evalmap e m = Some m' -> assoc x m = None -> assoc x m' = None.
+Proof.
+  revert m'. induction m as [|[k t] m IH]; cbn; intros m' E Hx.
+  - inversion E. reflexivity.
+  - destruct (eval e t) as [v|]; [|discriminate].
+    destruct (evalmap e m) as [r'|]; [|discriminate].
+    inversion E; subst. cbn. destruct (str_eqb x k); [discriminate|]. apply IH; [reflexivity|exact Hx].
+Qed.
+
+Lemma eval_var e x v : assoc x e = Some v -> eval e [PVar x] = Some v.
+Proof. intros H. cbn. rewrite H. rewrite app_nil_r. reflexivity. Qed.
+
+Lemma scope_var c x v :
+  assoc x (cU c) = None -> assoc x (cV c) = Some v -> eval (stack [] c) [PVar x] = Some v.
+Proof.
+  intros Hu Hv. apply eval_var. unfold stack. cbn [app]. rewrite assoc_app, Hu, assoc_app, Hv. reflexivity.
+Qed.
+
+Lemma copy_scope c x v b s i :
+  stages c [(x, v)] b s = Some i -> assoc x (cU c) = None ->
+  assoc x (cV (child_ctx c i)) = Some v /\ assoc x (cU (child_ctx c i)) = None /\
+  eval (stack [] (child_ctx c i)) [PVar x] = Some v.
+Proof.
+  intros Hs Hu. destruct (stages_vars _ _ _ _ _ Hs) as [V1 HV].
+  assert (A : assoc x (cV (child_ctx c i)) = Some v).
+  { unfold child_ctx. cbn [cV]. rewrite HV. cbn. rewrite str_eqb_refl. reflexivity. }
+  split; [exact A|]. split; [exact Hu|]. apply scope_var; [exact Hu|exact A].
+Qed.
+
+(* ... and the binding passes through every role below that does not define the name *)
+Lemma scope_inherited c loc x v b s i :
+  assoc x (cV c) = Some v -> assoc x (cU c) = None ->
+  assoc x loc = None -> assoc x (r_vars b) = None ->
+  stages c loc b s = Some i ->
+  assoc x (cV (child_ctx c i)) = Some v /\ assoc x (cU (child_ctx c i)) = None /\
+  eval (stack [] (child_ctx c i)) [PVar x] = Some v.
+Proof.
+  intros Hx Hu Hl Hv Hs. destruct (stages_vars_eq _ _ _ _ _ Hs) as [D1 [V1 [EV HV]]].
+  assert (A : assoc x (cV (child_ctx c i)) = Some v).
+  { unfold child_ctx. cbn [cV]. rewrite HV. rewrite !assoc_app. rewrite Hl.
+    rewrite (evalmap_assoc_none _ _ _ x EV Hv). exact Hx. }
+  split; [exact A|]. split; [exact Hu|]. apply scope_var; [exact Hu|exact A].
+Qed.
+
+(* the template of the seeded example: host{{it}} for it in 1..3 [ worker{{jt}} for jt in 1..{{it}} ] *)
+Definition s_it : str := [105;116].
+Definition s_jt : str := [106;116].
+Definition ex_nested : role :=
+  Role None KAgg (base0 [114] (lit s_true))
+    [Role (Some (mkFor (RBeginEnd (lit [49]) (lit [51])) s_it)) KAgg
+          (mkBase [PLit [104]; PVar s_it] (lit s_true) [] [] [] [] false)
+          [Role (Some (mkFor (RBeginEnd (lit [49]) [PVar s_it]) s_jt)) KTask
+                (mkBase [PLit [119]; PVar s_jt] (lit s_true) [] [] [] [] true) []]].
+
+Lemma ex_nested_loads :
+  exists t, load ctx0 ex_nested = Ok t /\ profile t = [3; 1; 2; 3] /\
+            length (flat_map visible (onode_kids t)) = 3%nat /\ length (flat t) = 1%nat /\
+            vis_count t = 10%nat.
+Proof. vm_compute. eexists. repeat split; reflexivity. Qed.
+
+
 (* a concrete template, its load, and two complete schedules (left-to-right, right-to-left) *)
 Definition ex_role : role :=
   Role None KAgg (mkBase (lit [114]) (lit s_true) [([100], [PLit [68]; PVar kx])] [] [] [] false)
